@@ -19,7 +19,7 @@ pub fn def() -> PropDef {
     PropDef {
         id: "C12",
         level: "exploration",
-        rule: "(a) cases = (sequence of 0-20 values, dialect, trivia string drawn over {space, tab, CR, LF, FF, ';...\\n'} at every boundary incl. a final comment without newline, source, iteration style in {next_value loop, value_iter, datum_iter, Iterator for Parser}); (b) metamorphic pairs: one token sequence joined with two independent trivia draws must give the same values; (c) cases = (arbitrary finite input, options, call history on one parser: random interleavings of next_value/next_datum/expect_end/value_iter().next() continuing after errors, up to 2*len+16 calls) judged for bounded item count, fuel, and span progress of successful items. both feature builds. non-trivial = one iteration or history judged; distinct = hash of (text, options, style or history seed)",
+        rule: "(a) cases = (sequence of 0-20 values, dialect, trivia string drawn over {space, tab, CR, LF, FF, ';...\\n'} at every boundary incl. a final comment without newline, source, iteration style in {next_value loop, value_iter, datum_iter, Iterator for Parser}); (b) metamorphic pairs: one token sequence joined with two independent trivia draws must give the same values; (c) cases = (arbitrary finite input, options, call history on one parser: random interleavings of next_value/next_datum/expect_end/value_iter().next()/datum_iter().next()/Iterator::next continuing after errors, up to 2*len+16 calls) judged for bounded item count, fuel, and span progress of successful items. both feature builds. non-trivial = one iteration or history judged; distinct = hash of (text, options, style or history seed)",
         assumptions: &["trivia = the set named in the statement; one trivia piece is always present between two atoms (removing all separation is not 'changing trivia')", "an iterator that yields more than len+2 items for a len-byte input does not terminate"],
         nofast_too: true,
         min_quick: 200_000,
@@ -342,6 +342,27 @@ fn termination_case(rep: &mut Report, rng: &mut Rng, input: &[u8], q: &Q, tag: &
         );
         return;
     }
+    // the adaptors, polled again and again after an error, must not yield forever either
+    for style in ["value_iter", "datum_iter"] {
+        rep.eval();
+        let mut p = Parser::from_slice_custom(input, o);
+        let mut items = 0usize;
+        let mut ended = false;
+        for _ in 0..(2 * cap + 16) {
+            let r = if style == "value_iter" { p.value_iter().next().map(|r| r.map(|_| ())) } else { p.datum_iter().next().map(|r| r.map(|_| ())) };
+            match r {
+                Some(_) => items += 1,
+                None => {
+                    ended = true;
+                    break;
+                }
+            }
+        }
+        if !ended {
+            rep.violation("termination", format!("C12:adaptor-never-ends:{}", style), format!("{}().next() polled {} times over {:?} ({} bytes) with {} never returned None ({} items)", style, 2 * cap + 16, show(input), input.len(), q.describe(), items), replay.clone());
+            return;
+        }
+    }
     // each successful item consumes input (datum spans: non-empty, ordered)
     {
         let mut p = Parser::from_slice_custom(input, o);
@@ -375,7 +396,8 @@ fn termination_case(rep: &mut Report, rng: &mut Rng, input: &[u8], q: &Q, tag: &
     crate::hooks::set_fuel(64 * (input.len() as u64 + 2) * (calls as u64 + 1) + 65536);
     let r = panics::guarded(|| {
         for _ in 0..calls {
-            let which = rng.below(4);
+            let which = rng.below(6);
+            #[allow(deprecated)]
             let got_item = match which {
                 0 => matches!(p.next_value(), Ok(Some(_))),
                 1 => matches!(p.next_datum(), Ok(Some(_))),
@@ -383,7 +405,9 @@ fn termination_case(rep: &mut Report, rng: &mut Rng, input: &[u8], q: &Q, tag: &
                     let _ = p.expect_end();
                     false
                 }
-                _ => matches!(p.value_iter().next(), Some(Ok(_))),
+                3 => matches!(p.value_iter().next(), Some(Ok(_))),
+                4 => matches!(p.datum_iter().next(), Some(Ok(_))),
+                _ => matches!(Iterator::next(&mut p), Some(Ok(_))),
             };
             hist.push(char::from(b'0' + which as u8));
             if got_item {
